@@ -1,1 +1,428 @@
-def main : IO Unit := IO.println "driver C17: not built yet"
+import VncModel.Basic.Proto
+import VncModel.Scale.State
+/-! Line-protocol driver for the scaling model (C17).  Same script as harness/c17.c.
+
+Besides the proved model (`VncModel.Scale.step`, `corr`, `clipReq`, `updateRect`, `reference`) the
+driver keeps, per client, a conservative description of `modifiedRegion` / `requestedRegion`
+(empty, exactly one rectangle, or "some region") so that it can predict the rectangles of an
+update exactly whenever the region is a single rectangle, and the client's picture. -/
+open VncModel VncModel.Scale VncModel.Proto
+
+/-- a region of the screen: exact pixel set (bit `y*W+x` of `set`) plus, when known, the fact that
+the sra representation is exactly one rectangle -/
+structure Pend where
+  set : Nat := 0
+  shape : Option Rect := none
+  deriving Inhabited
+
+structure DCl where
+  id : Nat
+  live : Bool := true
+  pend : Pend := {}           -- cl->modifiedRegion
+  rq : Pend := {}             -- cl->requestedRegion
+  pic : Option Img := none    -- the client's picture, `none` = not predictable
+  insync : Bool := false      -- picture = scaled image except for the pixels whose block `pend` touches
+  pw : Nat := 0
+  ph : Nat := 0
+  deriving Inhabited
+
+structure DState where
+  srv : Option Srv := none
+  mapped : Bool := false
+  cls : List DCl := []
+  deriving Inhabited
+
+def fmtOf (s : String) : Option (Fmt × Bool) :=
+  if s = "8m" then some (⟨1, false, 7, 7, 3, 0, 3, 6⟩, true)
+  else if s = "8" then some (⟨1, true, 7, 7, 3, 0, 3, 6⟩, false)
+  else if s = "16" then some (⟨2, true, 31, 31, 31, 0, 5, 10⟩, false)
+  else if s = "32" then some (⟨4, true, 255, 255, 255, 0, 8, 16⟩, false)
+  else none
+
+/-! splitmix64 exactly as harness/common/vh.h -/
+def gamma : UInt64 := 0x9E3779B97F4A7C15
+def srand (s : UInt64) : UInt64 := s * gamma + 1
+def rnd (st : UInt64) : UInt64 × UInt64 :=
+  let st := st + gamma
+  let z := st
+  let z := (z ^^^ (z >>> 30)) * 0xBF58476D1CE4E5B9
+  let z := (z ^^^ (z >>> 27)) * 0x94D049BB133111EB
+  (z ^^^ (z >>> 31), st)
+
+def fnvInit : UInt64 := 1469598103934665603
+def fnvAdd (h : UInt64) (v : Nat) (nbytes : Nat) : UInt64 := Id.run do
+  let mut h := h
+  for i in [0:nbytes] do
+    h := (h ^^^ UInt64.ofNat ((v >>> (8 * i)) % 256)) * 1099511628211
+  return h
+
+def hex16 (h : UInt64) : String :=
+  let n := h.toNat
+  String.ofList ((List.range 16).map fun i => hexChar ((n >>> (4 * (15 - i))) % 16))
+
+def imgHash (bpp : Nat) (i : Img) : UInt64 := Id.run do
+  let mut h := fnvInit
+  for y in [0:i.h] do
+    for x in [0:i.w] do
+      h := fnvAdd h (i.get x y) bpp
+  return h
+
+def zeros (w h : Nat) : Img := Img.tabulate w h fun _ _ => 0
+
+def rectEq (a b : Rect) : Bool := a == b
+def rectIn (a b : Rect) : Bool :=   -- a ⊆ b (both non-empty)
+  decide (b.x ≤ a.x ∧ b.y ≤ a.y ∧ a.x + a.w ≤ b.x + b.w ∧ a.y + a.h ≤ b.y + b.h)
+def rectDisjoint (a b : Rect) : Bool :=
+  decide (a.x + a.w ≤ b.x ∨ b.x + b.w ≤ a.x ∨ a.y + a.h ≤ b.y ∨ b.y + b.h ≤ a.y)
+
+def rectMask (W : Nat) (r : Rect) : Nat := Id.run do
+  let mut m := 0
+  let row := ((1 <<< r.w.toNat) - 1) <<< r.x.toNat
+  for y in [r.y.toNat : r.y.toNat + r.h.toNat] do
+    m := m ||| (row <<< (y * W))
+  return m
+
+def Pend.add (p : Pend) (W : Nat) (r : Rect) : Pend :=
+  let m := rectMask W r
+  if p.set = 0 then ⟨m, some r⟩
+  else match p.shape with
+    | some q => if rectEq q r then p else ⟨p.set ||| m, none⟩
+    | none => ⟨p.set ||| m, none⟩
+
+def Pend.isNone (p : Pend) : Bool := p.set == 0
+
+def imgOf (s : Srv) (w h : Nat) : Img :=
+  if isMain s w h then s.main.img else
+  match findChain s.chain w h with
+  | some p => p.img
+  | none => zeros w h
+
+def fmtRect (r : Rect) : String := s!"{r.x},{r.y},{r.w},{r.h}"
+
+/-- paste rectangle `r` of `src` into `dst` -/
+def paste (dst src : Img) (r : Rect) : Img :=
+  Img.tabulate dst.w dst.h fun X Y => if r.has X Y then src.get X Y else dst.get X Y
+
+/-- what one run of the event loop sends to client `d` (rfbUpdateClient → rfbSendFramebufferUpdate).
+returns new srv (newFBSizePending), new DCl, optional "nfs=WxH", and the rectangles
+(`none` = not predictable) -/
+def flushOne (s : Srv) (d : DCl) : Srv × DCl × Option String × Option (List (Rect × Rect)) :=
+  if !d.live then (s, d, none, some []) else
+  match s.clients.find? (·.id == d.id) with
+  | none => (s, d, none, some [])
+  | some c =>
+  if d.rq.isNone then (s, d, none, some []) else
+  -- NewFBSize first (a separate update consisting of the pseudo rectangle only)
+  let (s, d, c, nfsS) :=
+    if c.nfs && c.pending then
+      let s' := { s with clients := setClient s.clients c.id fun c => { c with pending := false } }
+      (s', { d with pw := c.sw, ph := c.sh, pic := some (zeros c.sw c.sh),
+                    insync := d.pend.set == rectMask s.main.w (fullRect s) },
+       { c with pending := false }, some s!"nfs={c.sw}x{c.sh}")
+    else (s, d, c, none)
+  let same := isMain s c.sw c.sh
+  let fullSet := rectMask s.main.w (fullRect s)
+  let simg := imgOf s c.sw c.sh
+  let upd := d.pend.set &&& d.rq.set
+  if upd == 0 then (s, d, nfsS, some []) else
+  let pendSet' := d.pend.set &&& (fullSet ^^^ upd)
+  match d.rq.shape, d.pend.shape with
+  | some R, some P =>
+    if rectIn P R then
+      let S := corr same s.main.w s.main.h c.sw c.sh P
+      let pic' := match d.pic with
+        | some p => some (paste p simg S)
+        | none => none
+      (s, { d with pend := {}, rq := {}, pic := pic', insync := d.insync || upd == fullSet },
+       nfsS, some [(P, S)])
+    else
+      let ins := d.insync || upd == fullSet
+      (s, { d with pend := ⟨pendSet', none⟩, rq := {}, insync := ins,
+                   pic := if ins && pendSet' == 0 && d.pw == c.sw && d.ph == c.sh then some simg else none },
+       nfsS, none)
+  | _, _ =>
+    let ins := d.insync || upd == fullSet
+    (s, { d with pend := ⟨pendSet', none⟩, rq := {}, insync := ins,
+                 pic := if ins && pendSet' == 0 && d.pw == c.sw && d.ph == c.sh then some simg else none },
+     nfsS, none)
+
+/-- one pump: every client; returns the report for client `me` -/
+def flushAll (s : Srv) (cls : List DCl) (me : Nat) :
+    Srv × List DCl × Option String × Option (List (Rect × Rect)) :=
+  cls.foldl (fun (acc : Srv × List DCl × Option String × Option (List (Rect × Rect))) d =>
+    let (s, out, nfsS, rects) := acc
+    let (s', d', n', r') := flushOne s d
+    if d.id == me then (s', out ++ [d'], n', r') else (s', out ++ [d'], nfsS, rects)) (s, [], none, some [])
+
+def getCl (st : DState) (id : Nat) : Option DCl := st.cls.find? fun d => d.id == id && d.live
+def putCl (cls : List DCl) (d : DCl) : List DCl := cls.map fun e => if e.id == d.id then d else e
+
+def refPixel (s : Srv) (_mapped : Bool) (pw ph X Y : Nat) : Nat :=
+  if pw == s.main.w && ph == s.main.h then s.main.img.get X Y
+  else scaledPixel s.fmt s.main.img pw ph X Y
+
+def firstDiff (s : Srv) (mapped : Bool) (p : Img) (pw ph : Nat) : Option (Nat × Nat × Nat × Nat) := Id.run do
+  for y in [0:ph] do
+    for x in [0:pw] do
+      let want := refPixel s mapped pw ph x y
+      let got := p.get x y
+      if want != got then return some (x, y, got, want)
+  return none
+
+def hexNat (n : Nat) : String :=
+  if n = 0 then "0" else
+  let rec go (fuel n : Nat) (acc : List Char) : List Char :=
+    match fuel with
+    | 0 => acc
+    | fuel + 1 => if n = 0 then acc else go fuel (n / 16) (hexChar (n % 16) :: acc)
+  String.ofList (go 16 n [])
+
+def nat? (s : String) : Option Nat := s.toNat?
+
+def corrSumStep (h : UInt64) (fw tw x w : Nat) : UInt64 :=
+  let c := corr false fw 1 tw 1 ⟨x, 0, w, 1⟩
+  fnvAdd (fnvAdd h (c.x % 4294967296).toNat 4) (c.w % 4294967296).toNat 4
+
+def corrSum (lim : Nat) : UInt64 := Id.run do
+  let mut h := fnvInit
+  for fw in [1:lim+1] do
+    for tw in [1:lim+1] do
+      for x in [0:fw] do
+        for w in [1:fw - x + 1] do
+          h := corrSumStep h fw tw x w
+  return h
+
+def corrRnd (n : Nat) (seed : UInt64) : UInt64 := Id.run do
+  let mut h := fnvInit
+  let mut st := srand seed
+  for _ in [0:n] do
+    let (r1, s1) := rnd st
+    let mut fw := 1 + (r1 % 65535).toNat
+    let (r2, s2) := rnd s1
+    let mut tw := 0
+    let mut s3 := s2
+    if r2 % 2 != 0 then
+      let (r3, s') := rnd s2
+      s3 := s'
+      let nn := 1 + (r3 % 255).toNat
+      tw := fw / nn
+      if tw < 1 then tw := 1
+    else
+      let (r3, s') := rnd s2
+      s3 := s'
+      tw := 1 + (r3 % 65535).toNat
+    let (r4, s4) := rnd s3
+    if r4 % 4 == 0 then
+      let t := fw
+      fw := tw
+      tw := t
+    let (r5, s5) := rnd s4
+    let x := (r5 % UInt64.ofNat fw).toNat
+    let (r6, s6) := rnd s5
+    let w := 1 + (r6 % UInt64.ofNat (fw - x)).toNat
+    st := s6
+    h := corrSumStep h fw tw x w
+  return h
+
+def dstep (st : DState) (toks : List String) : DState × List String :=
+  let bad : DState × List String := (st, ["bad-op"])
+  match st.srv, toks with
+  | none, ["screen", w, h, f] =>
+    match nat? w, nat? h, fmtOf f with
+    | some w, some h, some (fmt, mapped) =>
+      if w < 1 || h < 1 || w > 4096 || h > 4096 then bad else
+      ({ st with srv := some (init fmt (zeros w h)), mapped := mapped }, ["ok"])
+    | _, _, _ => bad
+  | none, _ => bad
+  | some s, ["client", i, nfs] =>
+    match nat? i, nat? nfs with
+    | some i, some nfs =>
+      if i ≥ 8 || st.cls.any (·.id == i) then bad else
+      let s1 := step s (.join i (nfs != 0))
+      let d : DCl := { id := i, pend := Pend.add {} s.main.w (fullRect s), pic := some (zeros s.main.w s.main.h),
+                       insync := true, pw := s.main.w, ph := s.main.h }
+      let (s2, cls, _, _) := flushAll s1 (st.cls ++ [d]) i
+      ({ st with srv := some s2, cls := cls }, ["ok"])
+    | _, _ => bad
+  | some s, ["scale", i, v, n] =>
+    match nat? i, nat? n with
+    | some i, some n =>
+      match getCl st i with
+      | none => bad
+      | some d =>
+        if n > 255 then bad else
+        let s1 := step s (.setScale i (v.startsWith "p") n)
+        if n = 0 then
+          let cls := putCl st.cls { d with live := false }
+          let (s2, cls, _, _) := flushAll s1 cls i
+          ({ st with srv := some s2, cls := cls }, [s!"closed {i}"])
+        else
+          match s1.clients.find? (·.id == i) with
+          | none => bad
+          | some c =>
+            if c.nfs && c.pending then
+              let (s2, cls, _, _) := flushAll s1 st.cls i
+              ({ st with srv := some s2, cls := cls }, [s!"told {i} none"])
+            else
+              let s2 := { s1 with clients := setClient s1.clients i fun c => { c with pending := false } }
+              let d' := { d with pw := c.sw, ph := c.sh, pic := some (zeros c.sw c.sh),
+                                 insync := d.pend.set == rectMask s.main.w (fullRect s) }
+              let msg := if c.palm then s!"told {i} p {s.main.w} {s.main.h} {c.sw} {c.sh}"
+                         else s!"told {i} u {c.sw} {c.sh}"
+              let (s3, cls, _, _) := flushAll s2 (putCl st.cls d') i
+              ({ st with srv := some s3, cls := cls }, [msg])
+    | _, _ => bad
+  | some s, ["geom"] =>
+    let one (p : SScreen) := s!" {p.w}x{p.h}:{p.ref}"
+    (st, ["geom" ++ one s.main ++ String.join (s.chain.map one)])
+  | some s, ["cl", i] =>
+    match nat? i with
+    | some i =>
+      match getCl st i, s.clients.find? (·.id == i) with
+      | some _, some c => (st, [s!"cl {i} {c.sw}x{c.sh}" ++ (if isMain s c.sw c.sh then " self" else "")])
+      | _, _ => bad
+    | none => bad
+  | some s, ["draw", x, y, w, h, seed] =>
+    match nat? x, nat? y, nat? w, nat? h, nat? seed with
+    | some x, some y, some w, some h, some seed =>
+      if w < 1 || h < 1 || x + w > s.main.w || y + h > s.main.h then bad else
+      let mask := 2 ^ (8 * s.fmt.bpp)
+      let vals : Array Nat := Id.run do
+        let mut a : Array Nat := Array.mkEmpty (w * h)
+        let mut g := srand (UInt64.ofNat seed)
+        for _ in [0:w * h] do
+          let (r, g') := rnd g
+          g := g'
+          a := a.push ((r >>> 16).toNat % mask)
+        return a
+      let r : Rect := ⟨x, y, w, h⟩
+      let fb := Img.tabulate s.main.w s.main.h fun X Y =>
+        if r.has X Y then vals.getD ((Y - y) * w + (X - x)) 0 else s.main.img.get X Y
+      let s1 := { s with main := { s.main with img := fb } }
+      let s2 := step s1 (.modify r)
+      let cls := st.cls.map fun d => if d.live then { d with pend := d.pend.add s.main.w r } else d
+      ({ st with srv := some s2, cls := cls }, ["ok"])
+    | _, _, _, _, _ => bad
+  | some s, ["mark", x1, y1, x2, y2] =>
+    match parseInt? x1, parseInt? y1, parseInt? x2, parseInt? y2 with
+    | some x1, some y1, some x2, some y2 =>
+      let (x1, x2) := if x1 > x2 then (x2, x1) else (x1, x2)
+      let x1 := if x1 < 0 then 0 else x1
+      let x2 := if x2 > s.main.w then (s.main.w : Int) else x2
+      let (y1, y2) := if y1 > y2 then (y2, y1) else (y1, y2)
+      let y1 := if y1 < 0 then 0 else y1
+      let y2 := if y2 > s.main.h then (s.main.h : Int) else y2
+      if x1 == x2 || y1 == y2 || x1 > x2 || y1 > y2 then (st, ["ok"]) else
+      let r : Rect := ⟨x1, y1, x2 - x1, y2 - y1⟩
+      let s2 := step s (.modify r)
+      let cls := st.cls.map fun d => if d.live then { d with pend := d.pend.add s.main.w r } else d
+      ({ st with srv := some s2, cls := cls }, ["ok"])
+    | _, _, _, _ => bad
+  | some s, [op, i, inc, x, y, w, h] =>
+    if op != "req" && op != "reqq" then bad else
+    match nat? i, nat? inc, nat? x, nat? y, nat? w, nat? h with
+    | some i, some inc, some x, some y, some w, some h =>
+      match getCl st i, s.clients.find? (·.id == i) with
+      | some d, some c =>
+        let d1 : DCl :=
+          match clipReq (isMain s c.sw c.sh) s.main.w s.main.h c.sw c.sh ⟨x % 65536, y % 65536, w % 65536, h % 65536⟩ with
+          | none => d
+          | some R =>
+            if R.w ≤ 0 || R.h ≤ 0 then d      -- sraRgnCreateRect: empty region
+            else
+              let d := { d with rq := d.rq.add s.main.w R }
+              if inc == 0 then { d with pend := d.pend.add s.main.w R } else d
+        let (s2, cls, nfsS, rects) := flushAll s (putCl st.cls d1) i
+        let pre := (if op == "req" then s!"upd {i}" else s!"updq {i}") ++
+                   (match nfsS with | some t => " " ++ t | none => "")
+        let line := if op == "reqq" then pre else
+          match rects with
+          | none => pre ++ " ?"
+          | some rs => pre ++ s!" {rs.length}" ++
+              String.join (rs.map fun (p, q) => " " ++ fmtRect p ++ ">" ++ fmtRect q)
+        ({ st with srv := some s2, cls := cls }, [line])
+      | _, _ => bad
+    | _, _, _, _, _, _ => bad
+  | some s, ["pic", i] =>
+    match nat? i with
+    | some i =>
+      match getCl st i with
+      | none => bad
+      | some d =>
+        match d.pic with
+        | none => (st, [s!"pic {i} ?"])
+        | some p =>
+          let hs := hex16 (imgHash s.fmt.bpp p)
+          match firstDiff s st.mapped p d.pw d.ph with
+          | none => (st, [s!"pic {i} {hs} eq"])
+          | some (x, y, got, want) => (st, [s!"pic {i} {hs} DIFF {x} {y} {hexNat got} {hexNat want}"])
+    | none => bad
+  | some _, ["picq", i] =>
+    match nat? i with
+    | some i =>
+      match getCl st i with
+      | none => bad
+      | some _ => (st, [s!"picq {i} eq"])   -- only issued where the property demands equality
+    | none => bad
+  | some s, ["sfb", i] =>
+    match nat? i with
+    | some i =>
+      match getCl st i, s.clients.find? (·.id == i) with
+      | some _, some c => (st, [s!"sfb {i} {hex16 (imgHash s.fmt.bpp (imgOf s c.sw c.sh))}"])
+      | _, _ => bad
+    | none => bad
+  | some s, ["ptr", i, x, y] =>
+    match nat? i, nat? x, nat? y with
+    | some i, some x, some y =>
+      match getCl st i, s.clients.find? (·.id == i) with
+      | some _, some c =>
+        let x := x % 65536
+        let y := y % 65536
+        let (mx, my) := if isMain s c.sw c.sh then (x, y)
+                        else (scaleN x c.sw s.main.w, scaleN y c.sh s.main.h)
+        let (s2, cls, _, _) := flushAll s st.cls i
+        ({ st with srv := some s2, cls := cls }, [s!"ptr {i} {mx} {my}"])
+      | _, _ => bad
+    | _, _, _ => bad
+  | some s, ["leave", i] =>
+    match nat? i with
+    | some i =>
+      match getCl st i with
+      | none => bad
+      | some d =>
+        let s1 := step s (.leave i)
+        let (s2, cls, _, _) := flushAll s1 (putCl st.cls { d with live := false }) i
+        ({ st with srv := some s2, cls := cls }, ["ok"])
+    | none => bad
+  | some _, ["corr", fw, fh, tw, th, x, y, w, h] =>
+    match nat? fw, nat? fh, nat? tw, nat? th, nat? x, nat? y, nat? w, nat? h with
+    | some fw, some fh, some tw, some th, some x, some y, some w, some h =>
+      if fw < 1 || fh < 1 || tw < 1 || th < 1 then bad else
+      let c := corr false fw fh tw th ⟨x, y, w, h⟩
+      (st, [s!"corr {c.x} {c.y} {c.w} {c.h}"])
+    | _, _, _, _, _, _, _, _ => bad
+  | some _, [op, fw, tw, x] =>
+    if op != "sx" && op != "sy" then bad else
+    match nat? fw, nat? tw, nat? x with
+    | some fw, some tw, some x =>
+      if fw < 1 || tw < 1 then bad else (st, [s!"{op} {scaleN x fw tw}"])
+    | _, _, _ => bad
+  | some _, ["relx", lim] =>
+    match nat? lim with
+    | some lim => (st, [s!"relx {lim} {lim * lim * (lim + 1)} 0"])
+    | none => bad
+  | some _, ["relr", n, _] =>
+    match nat? n with
+    | some n => (st, [s!"relr {n} 0"])
+    | none => bad
+  | some _, ["corrsum", lim] =>
+    match nat? lim with
+    | some lim => (st, [s!"corrsum {hex16 (corrSum lim)}"])
+    | none => bad
+  | some _, ["corrrnd", n, seed] =>
+    match nat? n, nat? seed with
+    | some n, some seed => (st, [s!"corrrnd {hex16 (corrRnd n (UInt64.ofNat seed))}"])
+    | _, _ => bad
+  | some _, _ => bad
+
+def main : IO Unit := runDriver ({} : DState) dstep
